@@ -10,7 +10,7 @@ namespaces, scopes, block lists, delegate sets, reversed ls-refs order and refer
 non-trivial = some namespace was tampered or changed; distinct by scenario text";
 
 pub const C02_RULE: &str = "delegate sets of size 1..4, thresholds 1..n, local node delegate or not, blocked delegates, per-delegate \
-sigrefs state offered by the serving peer in {missing, behind, equal, ahead, diverged, invalid} (quick: every (n, threshold, \
+sigrefs state offered by the serving peer in {missing, behind, equal, ahead, diverged, invalid, unsigned rad/id, wrong identity root, absent}; stored delegates failing a check in this fetch with the others valid/absent at, below and above the threshold (quick: every (n, threshold, \
 local-delegate) with one non-equal delegate and random fills; thorough: full product for n <= 3, random for n = 4), pull and clone, \
 with and without refs_at; executed on real git repositories; non-trivial = at least one delegate is not in state `equal`; distinct by \
 scenario text";
@@ -244,6 +244,11 @@ pub fn delegate_state(d: usize, state: &str, other: usize) -> String {
         "diverged" => format!("L.commit.{d}.master;L.resign.{d};S.commit.{d}.feature;S.resign.{d}"),
         "invalid" => format!("S.commit.{d}.master;S.rekey.{d}.{other}"),
         "unknown" => format!("L.rmns.{d}"),
+        // ahead, validly signed, but the advertised namespace rad/id is not covered by the signed refs
+        "unsigned" => format!("S.del.{d}.id;S.commit.{d}.master;S.resign.{d};S.set.{d}.id.{d}.master"),
+        "wrongroot" => format!("S.commit.{d}.master;S.wrongroot.{d};S.resign.{d}"),
+        // neither stored nor served
+        "absent" => format!("L.rmns.{d};S.del.{d}.sigrefs"),
         _ => unreachable!(),
     }
 }
@@ -346,6 +351,48 @@ pub fn c02_cases(rng: &mut Rng, quick: bool) -> Vec<String> {
                 }
             }
         }
+    }
+    // STORED delegates whose offered data fails a check in this fetch (missing on the server, ahead but with an
+    // unsigned advertised rad/id, invalid signature, wrong identity root), the other delegates valid (ahead) or
+    // absent (neither stored nor served): `good` in {need-1, need, need+1}.
+    let mut failing = vec![];
+    for nd in 2..=4usize {
+        for t in 1..=nd {
+            for local_delegate in [false, true] {
+                let need = if local_delegate { t - 1 } else { t };
+                let lo = if local_delegate { 1 } else { 0 };
+                for (fi, fail) in ["missing", "unsigned", "invalid", "wrongroot"].iter().enumerate() {
+                    for nfail in 1..=2usize {
+                        for good in [need.wrapping_sub(1), need, need + 1] {
+                            if good > nd || lo + nfail + good > nd {
+                                continue;
+                            }
+                            let mut states: Vec<&str> = vec![];
+                            for i in 0..nd {
+                                states.push(if i < lo {
+                                    "equal"
+                                } else if i < lo + nfail {
+                                    fail
+                                } else if i < lo + nfail + good {
+                                    "ahead"
+                                } else {
+                                    "absent"
+                                });
+                            }
+                            // a non-delegate namespace is served as well, so that the advertisement is never
+                            // short of `ensure_threshold` on its own
+                            failing.push((nd, fi, nfail, c02_case(nd, t, local_delegate, false, &states, &[], false, &[])));
+                        }
+                    }
+                }
+            }
+        }
+    }
+    if quick {
+        let pick = (rng.0 % 3) as usize;
+        out.extend(failing.into_iter().enumerate().filter(|(i, (nd, _, nfail, _))| *nfail == 1 && (*nd == 2 || i % 6 == pick)).map(|(_, c)| c.3));
+    } else {
+        out.extend(failing.into_iter().map(|c| c.3));
     }
     if quick {
         // every boundary case with <= 3 delegates, half of those with 4; a third of the single-state family
